@@ -907,6 +907,9 @@ def _use_kind(node, parents):
             return "called (`%s`)" % dump(par)[:50]
         f = par.func
         if isinstance(f, ast.Attribute) and _self_rooted(f):
+            from vlib.model import unsafe_log_extra, is_logging_call
+            if is_logging_call(par) and unsafe_log_extra(par):
+                return "passed to a logging call with an `extra=` mapping (`%s`): Logger.makeRecord raises KeyError in the caller when a key names a LogRecord attribute" % dump(par)[:60]
             return None                  # handed to one of the object's own collaborators (logger: lazy formatting; event: stored)
         if isinstance(f, ast.Name) and f.id == "getattr" and len(par.args) == 3 and isinstance(par.args[1], ast.Constant):
             return None                  # getattr with a default does not raise AttributeError
